@@ -372,6 +372,6 @@ def replay(doc):
 
 
 def jobs(tier, seed):
-    n, shards = (4000, 8) if tier == "quick" else (240000, 16)
+    n, shards = (4000, 8) if tier == "quick" else (160000, 16)
     return [{"name": "refs-%d" % k, "kind": "refs", "n": n // shards, "seed": seed * 1000 + 400 + k,
              "shrink": 300 if tier == "quick" else 1500} for k in range(shards)]
